@@ -136,8 +136,9 @@ def random_cfg(rnd, mods):
     subs = pick_unrelated(rnd, mods, rnd.randint(1, 3), kind=skind)
     if not subs:
         return None
-    if rnd.random() < 0.08:
-        return {"verb": "should_not", "dir": d, "exc": False, "subs": [(skind, subs[0])], "objs": [], "anything": True}
+    if rnd.random() < 0.12:
+        batch = subs if rnd.random() < 0.5 else subs[:1]  # several subjects: judged by the sound lower bound only
+        return {"verb": "should_not", "dir": d, "exc": False, "subs": [(skind, x) for x in batch], "objs": [], "anything": True}
     objs = pick_unrelated(rnd, mods, rnd.randint(1, 3), avoid=subs, kind=okind)
     if not objs:
         return None
